@@ -44,6 +44,7 @@ package main
 
 //@ func (*RoundRobinBackend).getBackend
 //@   props C05
+//@   requires index >= 0
 //@   modifies nothing
 //@   ensures none: len(rb.backends) == 0 ==> err != nil
 //@   ensures pick: len(rb.backends) > 0 && index >= 0 ==> err == nil && result == rb.backends[index % len(rb.backends)]
@@ -428,6 +429,7 @@ package main
 //@   modifies nothing
 //@   ensures found: firstIdx(m.headers, name) >= 0 ==> err == nil && result == m.headers[firstIdx(m.headers, name)]
 //@   ensures notfound: firstIdx(m.headers, name) < 0 ==> err != nil
+//@   ensures found-iff: (err == nil) == (firstIdx(m.headers, name) >= 0)
 //@   loop 0:
 //@     invariant 0 <= $i && $i <= len(m.headers)
 //@     invariant forall j int :: 0 <= j && j < $i ==> !isHdr(m.headers[j], name)
@@ -497,6 +499,10 @@ package main
 
 // a decoded header value stored in the header list is never a typed nil pointer
 //@ fieldinv Header.value: isType($v, "string") || isNil($v) || allocated(refOf($v))
+// service items are objects
+//@ fieldinv Proxy.items: forall k int :: 0 <= k && k < len($v) ==> $v[k] != nil
+// the header list holds header objects
+//@ fieldinv Message.headers: forall k int :: 0 <= k && k < len($v) ==> $v[k] != nil
 // the entries of a decoded Via / Route are existing objects
 //@ fieldinv Via.params: forall k int :: 0 <= k && k < len($v) ==> allocated($v[k])
 //@ fieldinv Route.routeParams: forall k int :: 0 <= k && k < len($v) ==> allocated($v[k])
@@ -1143,3 +1149,37 @@ package main
 //@     invariant forall w int :: w != refOf(writer) ==> W[w] == old(W[w])
 //@   loop 1:
 //@     invariant forall w int :: w != refOf(writer) ==> W[w] == old(W[w])
+
+// ---- lifecycle / configuration facts assumed by the no-panic sweep (C08): fields set by the constructors
+// and Start() before any message is handled; assumed at loads in safety mode, listed as assumptions ----
+//@ fieldassume Proxy.myName: $v != nil
+//@ fieldassume Proxy.selfLearnRoute: $v != nil
+//@ fieldassume Proxy.clientTransMgr: $v != nil
+//@ fieldassume Proxy.resolver: $v != nil
+//@ fieldassume Proxy.preConfigRoute: $v != nil
+//@ fieldassume Proxy.dialogBasedBackends: $v != nil
+//@ fieldassume Proxy.backends: $v != nil
+//@ fieldassume DialogBasedBackend.backends: $v != nil
+//@ fieldassume ClientTransportMgr.transports: $v != nil
+//@ fieldassume SelfLearnRoute.route: $v != nil
+//@ fieldassume PreConfigRoute.items: $v != nil
+//@ fieldassume PreConfigHostResolver.hostIPs: $v != nil
+//@ fieldassume RoundRobinBackend.backendMap: $v != nil
+//@ fieldassume RoundRobinBackend.backendChangeListenerMgr: $v != nil
+//@ fieldassume UDPServerTransport.msgBufPool: $v != nil
+//@ fieldassume compactHeaderNames.compactHeaders: $v != nil
+//@ fieldassume RequestLine.requestURI: $v != nil
+//@ fieldassume NameAddr.Addr: $v != nil
+//@ fieldassume RouteParam.nameAddr: $v != nil
+//@ fieldassume RecRoute.nameAddr: $v != nil
+//@ fieldassume ByteArrayPool.arraySize: 0 <= $v && $v <= 65536
+//@ fieldassume UDPServerTransport.msgHandler: $v != nil
+//@ fieldassume TCPServerTransport.msgHandler: $v != nil
+//@ fieldassume TCPServerTransport.connAcceptedListener: $v != nil
+//@ fieldassume TCPBackend.connectionEstablished: $v != nil
+//@ fieldassume RawMessage.Message: $v != nil
+//@ fieldassume RawMessage.From: $v != nil
+// configuration invariant: a service item has at least one listener (not established when both ports are 0
+// or the UDP bind address is invalid - a configuration-only panic, outside network reach)
+//@ fieldassume ProxyItem.transports: len($v) >= 1
+//@ fieldassume UDPServerTransport.conn: $v != nil
